@@ -81,7 +81,7 @@ func Run(ctx *core.Ctx) {
 	e.add(fu)
 
 	// seeded random bundles until the budget of fault points is used
-	target := ctx.Pick(100000, 2400000)
+	target := ctx.Pick(60000, 1700000)
 	m3n := ctx.Pick(80, 4000)
 	rng := rand.New(rand.NewSource(ctx.Seed))
 	gi := 0
@@ -98,7 +98,7 @@ func Run(ctx *core.Ctx) {
 
 	var pg []*Unit
 	for _, u := range e.units {
-		if u.Family == "proggen" && len(pg) < ctx.Pick(0, 1000) {
+		if u.Family == "proggen" && len(pg) < ctx.Pick(0, 700) {
 			pg = append(pg, u)
 		}
 	}
